@@ -7,6 +7,8 @@
 // Heap invariants are checked inside the library by the guarded walker (E_SLEEPQ_BAD events).
 #include "vh.h"
 #include <photon/common/timeout.h>
+#include <photon/io/fd-events.h>
+#include <unistd.h>
 
 using namespace photon;
 
@@ -204,39 +206,97 @@ static void run_notstarted(vh::Rng& r, int rounds) {
 }
 
 // ---------------------------------------------------------------- targeted: thread_shutdown
-static void* shutdown_body(void* arg) {
-    auto flag = (std::atomic<int>*)arg;
-    while (flag->load() == 0) thread_yield();
+// A thread marked by thread_shutdown() must not block for more than the short bound, whatever it blocks in and
+// whatever it passed through since it was marked: the mark may arrive while it is in a sleep, a semaphore / mutex /
+// condition wait, a descriptor wait or a SCOPED_PAUSE_WORK_STEALING section, and it goes through a few more of those
+// before the final sleeps, which must still fail with EPERM at once.
+struct ShutCtl {
+    std::atomic<int> flag{0}, blocked{0};
+    uint64_t seed = 0;
+    int first_op = 0;
+    bool sync_waits = false;
+    semaphore* sem; mutex* mtx; condition_variable* cv; int fd;
+};
+static vh::NamedCounter c_shut_ops("shutdown_blocking_calls_of_marked_threads");
+static const char* shut_op_name[] = {"usleep", "semaphore-wait", "mutex-lock", "cvar-wait", "fd-wait", "pause-work-stealing-scope", "yield"};
+// every op would block for 3 s if the thread were not marked (long against the 10 ms bound, short against the stuck detector)
+constexpr uint64_t SHUT_BLOCK_US = 3 * 1000 * 1000;
+static void shut_op(ShutCtl& c, int op, bool marked_before) {
     auto t0 = vh::boottime_us();
-    int ret = thread_usleep(10 * 1000 * 1000);
-    int e = errno;
+    int ret = -2, e = 0;
+    errno = 0;
+    switch (op) {
+    case 0: ret = thread_usleep(SHUT_BLOCK_US); e = errno; break;
+    case 1: ret = c.sem->wait(1, Timeout(SHUT_BLOCK_US)); e = errno; break;
+    case 2: ret = c.mtx->lock(Timeout(SHUT_BLOCK_US)); e = errno; if (ret == 0) c.mtx->unlock(); break;
+    case 3: ret = c.cv->wait_no_lock(Timeout(SHUT_BLOCK_US)); e = errno; break;
+    case 4: ret = c.fd >= 0 ? wait_for_fd_readable(c.fd, Timeout(SHUT_BLOCK_US)) : thread_usleep(SHUT_BLOCK_US); e = errno; break;
+    case 5: { SCOPED_PAUSE_WORK_STEALING; thread_yield(); ret = -1; e = EPERM; break; }
+    default: thread_yield(); ret = -1; e = EPERM; break;
+    }
     auto dt = vh::boottime_us() - t0;
-    c_shutdown.add();
-    vh::event();
-    if (ret != -1 || e != EPERM)
+    c_shut_ops.add(); vh::event(); vh::progress();
+    if (dt >= SHUT_BLOCK_US - 150000)
+        vh::violation(std::string("shutdown/not-bounded:") + shut_op_name[op], "a thread marked by thread_shutdown() blocked for the full 3 s of the call",
+                      vh::JObj().kv("elapsed_us", dt).kv("op", shut_op_name[op]).kv("marked_before_the_call", marked_before).str());
+    else if (dt >= 1500000) vh::inconclusive("a blocking call of a shut-down thread took " + std::to_string(dt) + " us (loaded machine?)");
+    if (op == 0 && (ret != -1 || e != EPERM))
         vh::violation("shutdown/wrong-result", "a sleep of a thread marked by thread_shutdown() did not fail with EPERM",
-                      vh::JObj().kv("ret", ret).kv("errno", e).kv("elapsed_us", dt).str());
-    if (dt >= 9500000)
-        vh::violation("shutdown/not-bounded", "a thread marked by thread_shutdown() slept its full 10 s", vh::JObj().kv("elapsed_us", dt).str());
-    else if (dt >= 3000000) vh::inconclusive("shutdown sleep took " + std::to_string(dt) + " us (loaded machine?)");
-    // blocking again is still bounded
-    ret = thread_usleep(10 * 1000 * 1000);
-    if (ret != -1 || errno != EPERM)
-        vh::violation("shutdown/wrong-result", "second sleep of a shut-down thread did not fail with EPERM", "null");
+                      vh::JObj().kv("ret", ret).kv("errno", e).kv("elapsed_us", dt).kv("marked_before_the_call", marked_before).str());
+    if (op >= 1 && op <= 3 && ret == 0)
+        vh::violation(std::string("shutdown/wait-succeeded-without-cause:") + shut_op_name[op], "a wait of a shut-down thread reported success although nothing was signalled / unlocked", "null");
+}
+static void* shutdown_body(void* arg) {
+    auto& c = *(ShutCtl*)arg;
+    vh::Rng rng(c.seed);
+    while (c.flag.load() == 0) thread_yield();
+    c.blocked.store(1);
+    shut_op(c, c.first_op, false);          // the mark arrives before or during this one
+    c_shutdown.add();
+    // Waits on a semaphore / mutex / condition variable entered by an already marked thread are not capped by the
+    // library (known finding shutdown/not-bounded:*): only the executions of the dedicated class go through them, so
+    // that the others stay clean and keep reporting anything else
+    static const int ops_all[] = {0, 1, 2, 3, 4, 5, 6}, ops_capped[] = {0, 4, 5, 6};
+    for (int k = rng.below(4); k > 0; --k)
+        shut_op(c, c.sync_waits ? ops_all[rng.below(7)] : ops_capped[rng.below(4)], true);
+    // blocking again is still bounded, whatever the thread went through in between
+    shut_op(c, 0, true);
+    shut_op(c, 0, true);
     return nullptr;
 }
 static void run_shutdown(vh::Rng& r, int rounds) {
+    bool engine = photon::fd_events_init(photon::INIT_EVENT_EPOLL) == 0;
+    int pfd[2] = {-1, -1};
+    if (engine && pipe(pfd) != 0) vh::machinery_failure("pipe");
+    if (vh::args().exec % 8 == 3) rounds = std::min(rounds, vh::args().thorough() ? 16 : 8);    // each round may block for many seconds there
     for (int i = 0; i < rounds; ++i) {
-        std::atomic<int> flag{0};
-        auto th = thread_create(shutdown_body, &flag, 128 * 1024);
+        semaphore sem(0); mutex mtx; condition_variable cv;
+        mtx.lock();                                             // held by this thread for the whole round
+        ShutCtl c; c.seed = r.next(); c.sem = &sem; c.mtx = &mtx; c.cv = &cv; c.fd = engine ? pfd[0] : -1;
+        c.first_op = r.below(6);
+        c.sync_waits = vh::args().exec % 8 == 3;
+        bool while_blocked = r.chance(1, 2);
+        // marked before its first blocking call: the uncapped waits belong to the dedicated class only (see shutdown_body)
+        if (!while_blocked && !c.sync_waits && c.first_op >= 1 && c.first_op <= 3) c.first_op = r.pick({0, 4, 5});
+        // semaphore::wait() (unlike wait_interruptible()) swallows interrupts, also the EPERM one of thread_shutdown()
+        if (while_blocked && !c.sync_waits && c.first_op == 1) c.first_op = r.pick({0, 2, 3, 4});
+        auto th = thread_create(shutdown_body, &c, 128 * 1024);
         auto jh = thread_enable_join(th);
-        bool while_sleeping = r.chance(1, 2);
-        if (while_sleeping) { flag.store(1); thread_usleep(r.range(100, 2000)); }   // it is inside the 10 s sleep now
+        if (while_blocked) {
+            c.flag.store(1);
+            while (!c.blocked.load()) thread_yield();
+            thread_usleep(r.range(100, 2000));
+            // it is inside the 3 s call now; outside the dedicated class it must really be suspended there (mutex::lock()
+            // first spins through a number of yields, during which a mark is the "marked before the wait" case)
+            if (!c.sync_waits) for (int k = 0; k < 100000 && thread_stat(th) != SLEEPING; ++k) thread_yield();
+        }
         thread_shutdown(th);
-        flag.store(1);
+        c.flag.store(1);
         thread_join(jh);
+        mtx.unlock();
         vh::progress();
     }
+    if (engine) { close(pfd[0]); close(pfd[1]); photon::fd_events_fini(); }
 }
 
 
@@ -372,7 +432,7 @@ int main(int argc, char** argv) {
             for (int i = 0; i < g_ns; ++i) g_s[i].th.store(nullptr);
             vh::Rng rr(vh::mix(vh::args().xseed(), 77));
             run_notstarted(rr, vh::args().thorough() ? 60 : 15);
-            run_shutdown(rr, vh::args().thorough() ? 20 : 6);
+            run_shutdown(rr, vh::args().thorough() ? 60 : 16);
         }
         uint64_t n = get_info(INFO_SLEEPING_THREAD_NUM);
         if (n != base_sleeping)
